@@ -157,6 +157,9 @@ func checkStackLoadUses(c *Ctx, a *c16anchors, f *ssa.Function, ld *ssa.UnOp) {
 			if cal := r.Call.StaticCallee(); cal != nil && cal.Pkg != nil && cal.Pkg.Pkg.Path() == "slices" && (cal.Name() == "Contains" || cal.Name() == "Index") {
 				continue
 			}
+			if cal := r.Call.StaticCallee(); cal != nil && extFuncIs(cal, "slices", "Clone") {
+				continue // a copy handed out: the stack itself is only read
+			}
 			if cal := r.Call.StaticCallee(); cal != nil && cal.Origin() != nil && cal.Origin().Pkg != nil && cal.Origin().Pkg.Pkg.Path() == "slices" && (cal.Origin().Name() == "Contains" || cal.Origin().Name() == "Index") {
 				continue
 			}
@@ -690,6 +693,24 @@ func r16_4(c *Ctx, a *c16anchors) {
 		if !isRole && f == a.ctor && ctorInitialPush(a) != nil {
 			continue // the initial [Global] stack (R16.1 / R16.3)
 		}
+		if !isRole && len(pushes) > 0 && f.Object() != nil && f.Object().Exported() && !usedInLibrary(c, f) {
+			// an API entry point the library itself never calls, pushing what its caller hands in: a plugin announcing
+			// a nesting construct of its own (balance is R16.3's business, which judges this function like any other)
+			allParam := true
+			for _, p := range pushes {
+				if len(p.Call.Args) < 2 {
+					allParam = false
+					continue
+				}
+				if _, isPar := p.Call.Args[len(p.Call.Args)-1].(*ssa.Parameter); !isPar {
+					allParam = false
+				}
+			}
+			if allParam {
+				c.ok(fnName(f)+": push of a caller-supplied context in an API entry point the library never calls", pushes[0].Pos(), "plugin API; the library's own nesting constructs are unaffected")
+				continue
+			}
+		}
 		if !isRole {
 			for i, p := range pushes {
 				c.bad(fmt.Sprintf("%s: push #%d outside a nesting construct", fnName(f), i+1), p.Pos(), "a context is pushed in a function that builds neither a function body nor a block: queries would no longer equal the syntactic nesting")
@@ -1053,4 +1074,25 @@ func resultValues(v ssa.Value) []ssa.Value {
 		}
 	}
 	return []ssa.Value{v}
+}
+
+// usedInLibrary: some library function calls f or takes it as a value.
+func usedInLibrary(c *Ctx, f *ssa.Function) bool {
+	used := false
+	for _, g := range c.libFunctions() {
+		if g == f {
+			continue
+		}
+		allInstrs(g, func(_ *ssa.BasicBlock, _ int, in ssa.Instruction) {
+			for _, op := range in.Operands(nil) {
+				if op != nil && *op == ssa.Value(f) {
+					used = true
+				}
+			}
+			if ci, ok := in.(ssa.CallInstruction); ok && staticCallee(ci) == f {
+				used = true
+			}
+		})
+	}
+	return used
 }
